@@ -459,6 +459,22 @@ def s3(run: Run, prog: Program):
                             f"one node-weight attribute")
 
     def _name_part(name):
+        # S8: a GML key is alphanumeric; igraph's GML writer drops every other
+        # character of an attribute name, so a name with an underscore comes back
+        # under another name - the readers must accept that one as well
+        gml = re.sub(r"[^A-Za-z0-9]", "", name)
+        readers = [(f, k, vs, ln) for f, k, vs, ln in consts if k in ("in", "get_attribute_values")]
+        ok8 = gml == name or (readers and all(gml in vs for _, _, vs, _ in readers))
+        run.oblige("S8", f"Network.save:gml-key:{name}", ok8, sample={
+            "stored_as": name, "in_a_gml_file": gml})
+        if not ok8:
+            w8 = next((ln for f, k, vs, ln in consts if k == "set_attribute_values"), 0)
+            run.add("S8", f"Network.save/gml-key/{name}",
+                    f"src/pyunicorn/core/network.py:{w8}",
+                    f"save() stores the node weights as vertex attribute '{name}'; in a "
+                    f"GML file (a format the property lists) keys are alphanumeric and "
+                    f"the attribute is written as '{gml}', which no loader looks for: "
+                    f"node weights are lost on a GML round trip (all ones after Load)")
         for f, k, vs, ln in consts:
             # a reader may accept several names (older files): the stored one is among them
             ok = name in vs
@@ -926,6 +942,8 @@ def check(run: Run, prog: Program):
              "link-attribute counter")
     run.rule("S2", "copy-like constructors transfer adjacency+directedness, node "
              "weights and link attributes")
+    run.rule("S8", "the vertex attribute that carries the node weights keeps its name in "
+             "every listed file format (GML keys are alphanumeric)")
     run.rule("S3", "save and the loaders agree on the stored attribute names and on "
              "the undirected bookkeeping")
     run.rule("S4", "loaders/copies call constructors in a way that yields a complete "
